@@ -17,7 +17,8 @@ func init() { props["C20"] = runC20 }
 
 const c20Header = `From Coq Require Import String List ZArith.
 Import ListNotations.
-From GW Require Import Base.Res Gql.Syntax Gw.Locate Gw.LocateCheck.
+From GW Require Import Base.Res Gql.Syntax Gw.Locate Gw.LocateCheck Gw.Plan Gw.PlanCheck Gw.Plan2 Gw.PlanCheck2.
+Local Open Scope bool_scope.
 Local Open Scope string_scope.
 `
 
@@ -155,7 +156,14 @@ func runC20(cfg *runCfg) error {
 					c.Frags(parsed.Fragments), c.S(opTypeName(op)), c.Sels(op.SelectionSet))
 				obsTerm := fmt.Sprintf("{| ob_planned := %s; ob_fields := [%s] |}", coqBool(class == "ok"), strings.Join(obs, "; "))
 				c.Printf("Definition in%d := (%s).\n", id, "tt")
-				c.Printf("Eval vm_compute in (%d%%nat, model_agrees %s %s, property_holds %s %s).\n", id, common, obsTerm, common, obsTerm)
+				planModel := ""
+				if class == "ok" && oi < len(plans) {
+					// the full planner model: every step with its selection and fragment definitions
+					planModel = fmt.Sprintf(" && plan2_agrees 400 %s %s %s %s %s %s %s", c.Strs(cs.Fed.Priorities), c.URLMap(fed.Cap.Locs), c.FieldTypes(fed.Cap.Schema),
+						c.Frags(parsed.Fragments), c.S(opTypeName(op)), c.Sels(op.SelectionSet), c.fstep(plans[oi].RootStep))
+					doc.Dist["model:plan2-compared"]++
+				}
+				c.Printf("Eval vm_compute in (%d%%nat, model_agrees %s %s%s, property_holds %s %s).\n", id, common, obsTerm, planModel, common, obsTerm)
 				// non-trivial: some field of the query is offered by two or more services
 				for _, f := range fields {
 					_ = f
